@@ -6,6 +6,8 @@ package protorig
 
 import (
 	"fmt"
+	"runtime"
+	"strings"
 	"sync"
 	"sync/atomic"
 	"time"
@@ -273,8 +275,14 @@ func Of(evs []Ev, p *protocol.Protocol) []Ev {
 	return out
 }
 
+// LastParked holds the parked library goroutines seen by the last WaitUntil
+// call that returned frozen=true (for witnesses).
+var LastParked []string
+
 // WaitUntil polls cond; returns ok, or frozen=true when progress() did not
-// change for `quiet`, or neither after `hard` (inconclusive).
+// change for `quiet` AND a goroutine dump shows no library / CBOR goroutine
+// still running or runnable (a merely slow machine keeps extending the
+// window), or neither after `hard` (inconclusive).
 func WaitUntil(cond func() bool, progress func() int64, quiet, hard time.Duration) (ok bool, frozen bool) {
 	start := time.Now()
 	last := progress()
@@ -289,7 +297,15 @@ func WaitUntil(cond func() bool, progress func() int64, quiet, hard time.Duratio
 			lastChange = time.Now()
 		}
 		if time.Since(lastChange) > quiet {
-			return false, true
+			busy, parked := StallDump()
+			if cond() {
+				return true, false
+			}
+			if len(busy) == 0 && progress() == last {
+				LastParked = parked
+				return false, true
+			}
+			lastChange = time.Now() // still computing somewhere: keep waiting
 		}
 		if time.Since(start) > hard {
 			return false, false
@@ -305,4 +321,50 @@ func WaitDone(ch <-chan struct{}, d time.Duration) bool {
 	case <-time.After(d):
 		return false
 	}
+}
+
+// StallDump takes a goroutine dump and classifies it: busy lists goroutines
+// that are running / runnable (i.e. still computing, or waiting for a CPU)
+// inside library or CBOR frames; parked lists the library goroutines that are
+// blocked. A frozen progress counter is only a stall when nothing is busy.
+func StallDump() (busy []string, parked []string) {
+	take := func() (b, p []string) {
+		buf := make([]byte, 4<<20)
+		buf = buf[:runtime.Stack(buf, true)]
+		for _, blk := range strings.Split(string(buf), "\n\n") {
+			if !strings.Contains(blk, "gouroboros/") && !strings.Contains(blk, "fxamacker/") {
+				continue
+			}
+			if strings.Contains(blk, "protorig.StallDump") {
+				continue
+			}
+			nl := strings.IndexByte(blk, '\n')
+			if nl < 0 {
+				continue
+			}
+			head := blk[:nl]
+			// first library frame
+			frame := ""
+			for _, l := range strings.Split(blk[nl+1:], "\n") {
+				if strings.Contains(l, "gouroboros/") && !strings.HasPrefix(l, "\t") {
+					frame = strings.TrimSpace(l)
+					if i := strings.LastIndex(frame, "("); i > 0 {
+						frame = frame[:i]
+					}
+					break
+				}
+			}
+			desc := head + " " + frame
+			if strings.Contains(head, "[running") || strings.Contains(head, "[runnable") || strings.Contains(head, "[syscall") {
+				b = append(b, desc)
+			} else {
+				p = append(p, desc)
+			}
+		}
+		return
+	}
+	b1, _ := take()
+	time.Sleep(300 * time.Millisecond)
+	b2, p2 := take()
+	return append(b1, b2...), p2
 }
